@@ -101,6 +101,7 @@ type Engine struct {
 	sweepStage int
 	inflight   int32
 	upmaxBusy  int32
+	seqNow     uint64
 	keyHash    []uint64
 	keyConf    []uint64
 	pendingNew map[uint64]int // buffered new items per key hash (probes only)
@@ -165,6 +166,7 @@ var E *Engine
 //go:norace
 func (e *Engine) log(ev Ev) uint64 {
 	seq := e.sim.NextSeq()
+	atomic.StoreUint64(&e.seqNow, seq)
 	ev.Seq = seq
 	ev.T = time.Now().UnixNano()
 	i := atomic.AddInt32(&e.nevs, 1) - 1
@@ -183,9 +185,35 @@ func (e *Engine) violate(prop, rule, msg string, seq uint64) {
 			return
 		}
 	}
+	if seq == 0 && e.sim != nil {
+		// online rules (quiescent points, admission decisions): stamp with "now"
+		seq = atomic.LoadUint64(&e.seqNow)
+	}
 	if len(e.viol) < 64 {
 		e.viol = append(e.viol, Violation{prop, rule, msg, seq})
 	}
+}
+
+// PrefixAt returns, per client, how many operations had been invoked when
+// event seq was logged (used by the minimiser to cut off what ran later).
+func (e *Engine) PrefixAt(seq uint64) []int {
+	out := make([]int, len(e.plan.Clients))
+	n := int(atomic.LoadInt32(&e.nevs))
+	if n > maxEvs {
+		n = maxEvs
+	}
+	for i := 0; i < n; i++ {
+		ev := &e.evs[i]
+		if seq != 0 && ev.Seq > seq {
+			break
+		}
+		if ev.Kind == EvInvoke && int(ev.Task) >= 0 && int(ev.Task) < len(out) {
+			if int(ev.OpIx)+1 > out[ev.Task] {
+				out[ev.Task] = int(ev.OpIx) + 1
+			}
+		}
+	}
+	return out
 }
 
 //go:norace
